@@ -63,6 +63,10 @@ func NewByteBuffer() *ByteBuffer {
 //
 // This call grows the write area by at least `n` bytes. This might allocate.
 func (b *ByteBuffer) Reserve(n int) {
+	if n <= 0 {
+		// Nothing to reserve (also guards n - existing against overflow).
+		return
+	}
 	existing := cap(b.data) - b.wi
 	if need := n - existing; need > 0 {
 		b.data = b.data[:cap(b.data)]
